@@ -10,7 +10,10 @@
 //	yield()             runtime.Gosched()
 //	boom(msg)           a Go panic inside a builtin (tests Thread's recover)
 //	fail(msg)           returns a raised error object
-//	ident(v)            returns v (a builtin that can be spawned directly)
+//	ident(v...)         returns its argument (list of its arguments): a builtin that can be spawned directly
+//	hostspawn(args, pokes)  a host calling object.Spawn from Go: spawns a builtin that waits for a gate and
+//	                    then returns the parameters it sees; after Spawn returned the host overwrites
+//	                    elements of the slice it passed (pokes = [[index, value], ...]) and opens the gate
 //
 // `yield` != 0 makes rec/rec2 call runtime.Gosched() on a pseudo-random subset of the calls (injected yields).
 // Values are canonicalised: int -> number, nil -> null, bool, string -> "s:<text>", list -> array,
@@ -152,6 +155,36 @@ func (r *recorder) globals() map[string]any {
 				msg = nameOf(args[0])
 			}
 			return object.Errorf("%s", msg)
+		}),
+		"hostspawn": object.NewBuiltin("hostspawn", func(ctx context.Context, args ...object.Object) object.Object {
+			if len(args) != 2 {
+				return object.Errorf("argument error: hostspawn expects 2 arguments")
+			}
+			lst, ok1 := args[0].(*object.List)
+			pk, ok2 := args[1].(*object.List)
+			if !ok1 || !ok2 {
+				return object.Errorf("type error: hostspawn expects two lists")
+			}
+			slice := append([]object.Object{}, lst.Value()...)
+			gate := make(chan struct{})
+			gated := object.NewBuiltin("gated", func(ctx context.Context, a ...object.Object) object.Object {
+				<-gate
+				return object.NewList(append([]object.Object{}, a...))
+			})
+			th, err := object.Spawn(ctx, gated, slice)
+			if err != nil {
+				close(gate)
+				return object.NewError(err)
+			}
+			for _, p := range pk.Value() {
+				if pr, ok := p.(*object.List); ok && len(pr.Value()) == 2 {
+					if k, ok := pr.Value()[0].(*object.Int); ok && int(k.Value()) < len(slice) && k.Value() >= 0 {
+						slice[k.Value()] = pr.Value()[1]
+					}
+				}
+			}
+			close(gate)
+			return th
 		}),
 		"ident": object.NewBuiltin("ident", func(ctx context.Context, args ...object.Object) object.Object {
 			if len(args) == 0 {
